@@ -190,10 +190,13 @@ class Reader:
         self.close()
 
     def __getitem__(self, item):
-        if isinstance(item, int) or isinstance(item, slice):
-            return self.read(nsel=item, sync=False)
-        elif len(item) == 2:
-            return self.read(nsel=item[0], csel=item[1], sync=False)
+        if isinstance(item, tuple):
+            if len(item) == 1:
+                return self.read(nsel=item[0], sync=False)
+            elif len(item) == 2:
+                return self.read(nsel=item[0], csel=item[1], sync=False)
+            raise IndexError(f"too many indices: the reader is 2-dimensional, but {len(item)} were indexed")
+        return self.read(nsel=item, sync=False)
 
     @property
     def sample2volts(self):
